@@ -72,6 +72,20 @@ class _Base:
         self.failed_call_desc = None
         self._fail_seen = 0
 
+    def new_command(self, profile):
+        """The same adapter object serves the next command of a long-lived process: fault plan and
+        per-command accounting start over, calls still in flight keep their own record."""
+        self.profile = profile
+        self.calls = 0
+        self.commits = 0
+        self.max_inflight_slot = self.inflight_slot
+        self.counts = {}
+        self.payload_uploaded = 0
+        self.uploads = []
+        self.failed_call_desc = None
+        self._fail_seen = 0
+        self.fired = {}
+
     # --- bookkeeping shared by both flavours
     def _begin(self, op, name, data=None):
         s = CTX.s
